@@ -258,7 +258,7 @@ func (g *Gen) manifest(repo string) (data []byte, mt string) {
 
 func (g *Gen) start(existing []string) string {
 	sort.Strings(existing)
-	switch g.C.Weighted("start", []int{35, 25, 20, 10, 10}) {
+	switch g.C.Weighted("start", []int{35, 25, 20, 10, 10, 8}) {
 	case 0:
 		return ""
 	case 1:
@@ -274,6 +274,13 @@ func (g *Gen) start(existing []string) string {
 		return "zzzz"
 	case 4:
 		return []string{"a b", "x&y=1", "q?n=1", "100%", "é"}[g.C.Int("start.meta", 5)]
+	case 5:
+		// a start point that is not a clean path: it is a string to compare
+		// with, never a path to normalise
+		if len(existing) > 0 {
+			e := existing[g.C.Int("start.unclean", len(existing))]
+			return []string{e + "/", e + "/.", e + "/..", "./" + e, e + "//", "/" + e}[g.C.Int("start.unclean.form", 6)]
+		}
 	}
 	return ""
 }
